@@ -371,7 +371,7 @@ M("c17-subarray-drops-offset", ["C17"], VM,
 M("c18-new-unguarded-int", ["C18", "C04"], VM,
   "        def valueOf(*args):\n            return n\n", "        def valueOf(*args):\n            return n\n\n        def toInteger(*args):\n            return int(n)\n",
   [], note="a new native that is not registered in the method table is not script-reachable: the analysis correctly ignores it (twin-like)")
-M("c19-loads-default", ["C19"], CX, "py_value = json.loads(text, parse_constant=reject_constant)", "py_value = json.loads(text)", [("C19", "C19-R1", "json.loads")])
+M("c19-loads-default", ["C19"], CX, "                    text, parse_constant=reject_constant, parse_int=integer_token\n", "                    text, parse_int=integer_token\n", [("C19", "C19-R1", "json.loads")])
 M("c19-stringify-host-float-spelling", ["C19"], CX, "                    return to_string(v)\n                if isinstance(v, str):\n                    return json.dumps(v, ensure_ascii=False)", "                    return repr(v)\n                if isinstance(v, str):\n                    return json.dumps(v, ensure_ascii=False)", [("C19", "C19-R1", "number-branch")])
 M("c19-stringify-ascii-escapes", ["C19"], CX, "                    return json.dumps(v, ensure_ascii=False)", "                    return json.dumps(v)", [("C19", "C19-R1", "ensure_ascii")])
 M("c19-functions-not-omitted", ["C19"], CX, "                    or isinstance(v, (JSFunction, JSCallableObject))\n", "", [("C19", "C19-R5", "object-omission")])
@@ -1018,3 +1018,8 @@ TP("t-to-number-sign-first", ALL_PROPS, "selftest/patches/t-to-number-sign-first
 M("c18-minus-zero-text-through-int", ["C18"], VA,
   "        if n == 0 and s.startswith(\"-\"):\n            return -0.0  # \"-0\": a host int has no negative zero\n", "",
   [("C18", "C18-R12", "negative-zero")], note="fix 3476877 reverted in to_number")
+S("seed-C13-d", ["C13"], "seeded/C13-d/patch.diff", [("C13", "C13-R7", "_is_arrow_function_params")], note="mark/reset refactoring of the look-aheads; the handler's early return skips the reset (second author, the slip of C13-b)")
+S("seed-C09-e", ["C09"], "seeded/C09-e/patch.diff", [("C09", "C09-R4", "snapshots")], note="captures made copy-on-write; RESET_IF_NO_ADV still writes in place")
+TP("t-captures-copy-on-write", ALL_PROPS, "selftest/patches/t-captures-copy-on-write.diff", note="copy-on-write captures with every writer replacing the list first (repaired C09-e)")
+S("seed-C01-e", ["C01"], "seeded/C01-e/patch.diff", [("C01", "C01-R1", "loop")], note="the clock is polled in a function of its own at safepoints; the do-while back edge has none (second author, the slip of C01-d)", silent=("C02",))
+TP("t-clock-polled-at-safepoints", ALL_PROPS, "selftest/patches/t-clock-polled-at-safepoints.diff", note="time polled at safepoints by its own function with a bit-mask gate, memory still per instruction (repaired C01-e)")
